@@ -1,18 +1,19 @@
 #!/bin/bash
 # usage: run_seeded.sh <seeded dir> <prop> [<prop>...]
-# Applies the seeded change to /repo, runs the quick checks of the given properties, and restores /repo.
+# Applies the seeded change to a scratch worktree of /repo (never to /repo itself), runs the quick checks of the given
+# properties against that worktree, and removes the worktree.
 set -u
 d=$1; shift
 export GOFLAGS=-mod=mod GOPROXY=off GOSUMDB=off GOTOOLCHAIN=local
-cd /repo && git diff --quiet || { echo "/repo has uncommitted changes"; exit 2; }
-git -C /repo apply --whitespace=nowarn /verif/$d/patch.diff || { echo "patch does not apply"; exit 2; }
+wt=/root/scratch/seedwt-$(basename $d)
+git -C /repo worktree remove --force $wt 2>/dev/null
+git -C /repo worktree add -q --detach $wt HEAD || exit 2
+if ! git -C $wt apply --whitespace=nowarn /verif/$d/patch.diff; then echo "$d: patch does not apply to HEAD"; git -C /repo worktree remove --force $wt; exit 2; fi
 for p in "$@"; do
-  out=$(cd /verif && bin/vcheck -prop $p -tier quick 2>&1)
+  out=$(cd /verif && bin/vcheck -repo $wt -nosave -prop $p -tier ${TIER:-quick} 2>&1)
   rc=$?
   nv=$(echo "$out" | grep -c "^VIOLATION")
-  echo "$d $p exit=$rc violations=$nv"
-  echo "$out" | grep "^VIOLATION" | head -3 | cut -c1-300
+  echo "$d $p exit=$rc violations=$nv $(echo "$out" | grep '^property=' | tail -1)"
+  echo "$out" | grep "^VIOLATION" | head -4 | cut -c1-330
 done
-git -C /repo checkout -- .
-# evidence files were rewritten by the mutant run: restore the committed ones
-git -C /verif checkout -- evidence 2>/dev/null
+git -C /repo worktree remove --force $wt
